@@ -1,8 +1,216 @@
-(** C14 — proofs about the heap+cache machine (model/C14_Model.v). *)
+(** C14 — proofs about the heap+cache machine (model/C14_Model.v): cache transparency for the
+    pinned key discipline under every allocator / collector / cache size, and the refutation for the
+    unpinned discipline. *)
 From Coq Require Import NArith List Bool Arith Lia.
 Import ListNotations.
 From SK Require Import lib.Tok model.C14_Model.
 Local Open Scope N_scope.
+
+(* ------------------------------------------------------------------ small list facts *)
+
+Lemma Forall_tl {A} (P : A -> Prop) l : Forall P l -> Forall P (tl l).
+Proof. destruct l; simpl; auto. intro H; inversion H; auto. Qed.
+
+Lemma Forall_filter {A} (P : A -> Prop) f l : Forall P l -> Forall P (filter f l).
+Proof.
+  induction 1; simpl; auto. destruct (f x); auto.
+Qed.
+
+Section Transparent.
+  Variable R : Type.
+  Variable execute : N -> N -> bool -> R.
+  Variable cache_on : bool.
+  Variable cmax : nat.
+
+  Notation applyP := (apply R execute true cache_on cmax).
+  Notation stepP := (step R execute true cache_on cmax).
+  Notation runP := (run R execute true cache_on cmax).
+
+  Definition cont_of (cs : list N) (o : N) : N := nth (N.to_nat o) cs 0.
+
+  Definition entry_ok (cs : list N) (e : centry R) : Prop :=
+    e_res e = execute (cont_of cs (e_ps e)) (cont_of cs (e_pr e)) (e_kinv e)
+    /\ (N.to_nat (e_ps e) < length cs)%nat /\ (N.to_nat (e_pr e) < length cs)%nat.
+
+  Definition obj_ok (cs : list N) (x : obj) : Prop :=
+    (N.to_nat (o_id x) < length cs)%nat /\ cont_of cs (o_id x) = o_cont x.
+
+  (** The invariant: identities are allocation serial numbers, every live object carries the content
+      it was allocated with, and every cache entry holds the result of executing the rule on the
+      contents of the objects it pins.  Addresses do not occur in it. *)
+  Definition Inv (cs : list N) (s : state R) : Prop :=
+    next s = N.of_nat (length cs) /\ Forall (obj_ok cs) (heap s) /\ Forall (entry_ok cs) (cache s).
+
+  Lemma cont_of_ext cs l o : (N.to_nat o < length cs)%nat -> cont_of (cs ++ l) o = cont_of cs o.
+  Proof. intro H. unfold cont_of. apply app_nth1; auto. Qed.
+
+  Lemma obj_ok_ext cs l x : obj_ok cs x -> obj_ok (cs ++ l) x.
+  Proof.
+    intros [H1 H2]. split.
+    - rewrite app_length; lia.
+    - rewrite cont_of_ext; auto.
+  Qed.
+
+  Lemma entry_ok_ext cs l e : entry_ok cs e -> entry_ok (cs ++ l) e.
+  Proof.
+    intros (H1 & H2 & H3). repeat split; try (rewrite app_length; lia).
+    rewrite !cont_of_ext; auto.
+  Qed.
+
+  Lemma find_obj_some o h x : find_obj o h = Some x -> In x h /\ o_id x = o.
+  Proof.
+    unfold find_obj. intro H. apply find_some in H. destruct H as [H1 H2].
+    split; auto. apply N.eqb_eq; auto.
+  Qed.
+
+  Lemma upsert_Forall (P : centry R -> Prop) e c : P e -> Forall P c -> Forall P (upsert R e c).
+  Proof.
+    intros He. induction 1; simpl.
+    - constructor; auto.
+    - destruct (key_is R (e_ks e) (e_kr e) (e_kinv e) x); constructor; auto.
+  Qed.
+
+  Lemma lookup_some a b inv c e :
+    lookup R a b inv c = Some e -> In e c /\ e_ks e = a /\ e_kr e = b /\ e_kinv e = inv.
+  Proof.
+    unfold lookup. intro H. apply find_some in H. destruct H as [H1 H2].
+    unfold key_is in H2. apply andb_true_iff in H2. destruct H2 as [H2 H3].
+    apply andb_true_iff in H2. destruct H2 as [H2 H4].
+    apply N.eqb_eq in H2. apply N.eqb_eq in H4. apply eqb_prop in H3. auto.
+  Qed.
+
+  (** _RuleApplier.__call__ answers with execute(contents) and keeps the invariant. *)
+  Lemma apply_ok cs s x y inv s' h res :
+    Inv cs s -> obj_ok cs x -> obj_ok cs y ->
+    applyP s x y inv = (s', (h, res)) ->
+    res = execute (o_cont x) (o_cont y) inv /\ Inv cs s'.
+  Proof.
+    intros (Hn & Hh & Hc) [Hx1 Hx2] [Hy1 Hy2]. unfold apply.
+    destruct cache_on; simpl.
+    2:{ intro H; inversion H; subst. split; auto. repeat split; auto. }
+    destruct (lookup R (o_addr x) (o_addr y) inv (cache s)) as [e|] eqn:El.
+    - destruct ((e_ps e =? o_id x) && (e_pr e =? o_id y)) eqn:Eid.
+      + intro H; inversion H; subst. split; [|repeat split; auto].
+        apply lookup_some in El. destruct El as (Hin & _ & _ & Hinv).
+        apply andb_true_iff in Eid. destruct Eid as [E1 E2].
+        apply N.eqb_eq in E1. apply N.eqb_eq in E2.
+        rewrite Forall_forall in Hc. destruct (Hc _ Hin) as (Hr & _ & _).
+        rewrite Hr, E1, E2, Hinv, Hx2, Hy2. reflexivity.
+      + intro H; inversion H; subst. split; auto. repeat split; auto. simpl.
+        apply upsert_Forall.
+        * repeat split; simpl; auto. rewrite Hx2, Hy2. reflexivity.
+        * destruct (cmax <=? length (cache s))%nat; auto using Forall_tl.
+    - intro H; inversion H; subst. split; auto. repeat split; auto. simpl.
+      apply upsert_Forall.
+      * repeat split; simpl; auto. rewrite Hx2, Hy2. reflexivity.
+      * destruct (cmax <=? length (cache s))%nat; auto using Forall_tl.
+  Qed.
+
+  Lemma set_released_ok cs o h : Forall (obj_ok cs) h -> Forall (obj_ok cs) (set_released o h).
+  Proof.
+    unfold set_released. induction 1; simpl; constructor; auto.
+    destruct (o_id x =? o); auto.
+  Qed.
+
+  (** Main induction: along every legal trace the answers are the specification's. *)
+  Lemma run_ok tr : forall cs s outs fin,
+    Inv cs s -> runP s tr = (true, outs, fin) -> map snd outs = spec execute cs tr.
+  Proof.
+    induction tr as [|ev tr IH]; intros cs s outs fin HI Hrun; simpl in Hrun.
+    - inversion Hrun; reflexivity.
+    - destruct (stepP s ev) as [[s' out]|] eqn:Es; [|discriminate].
+      destruct (runP s' tr) as [[ok' outs'] fin'] eqn:Er.
+      inversion Hrun; subst ok' fin'. clear Hrun.
+      destruct HI as (Hn & Hh & Hc).
+      destruct ev as [a c|so ro inv|o|o]; unfold step in Es.
+      + (* EAlloc *)
+        destruct (addr_live a (heap s)); [discriminate|]. inversion Es; subst s' out. clear Es.
+        simpl. subst outs. apply (IH (cs ++ [c]) _ _ _) in Er; auto.
+        repeat split; simpl.
+        * rewrite app_length, Hn. simpl. lia.
+        * apply Forall_app. split.
+          -- eapply Forall_impl; [|exact Hh]. intros; apply obj_ok_ext; auto.
+          -- constructor; auto. split; simpl.
+             ++ rewrite Hn, Nat2N.id, app_length. simpl. lia.
+             ++ unfold cont_of. rewrite Hn, Nat2N.id. rewrite app_nth2; [|lia].
+                rewrite Nat.sub_diag. reflexivity.
+        * eapply Forall_impl; [|exact Hc]. intros; apply entry_ok_ext; auto.
+      + (* EApply *)
+        destruct (find_obj so (heap s)) as [x|] eqn:Ex; [|discriminate].
+        destruct (find_obj ro (heap s)) as [y|] eqn:Ey; [|discriminate].
+        destruct (o_held x && o_held y); [|discriminate].
+        destruct (applyP s x y inv) as [s'' [h res]] eqn:Ea.
+        inversion Es; subst s' out. clear Es.
+        apply find_obj_some in Ex. destruct Ex as [Hx Hxi].
+        apply find_obj_some in Ey. destruct Ey as [Hy Hyi].
+        rewrite Forall_forall in Hh. pose proof (Hh _ Hx) as Hox. pose proof (Hh _ Hy) as Hoy.
+        destruct (apply_ok cs s x y inv s'' h res) as [Hres HI']; auto.
+        { repeat split; auto. rewrite Forall_forall; auto. }
+        subst outs. simpl. f_equal.
+        * rewrite Hres. destruct Hox as [_ Hox]. destruct Hoy as [_ Hoy].
+          unfold cont_of in *. rewrite <- Hox, <- Hoy, Hxi, Hyi. reflexivity.
+        * eapply IH; eauto.
+      + (* ERelease *)
+        destruct (find_obj o (heap s)) as [x|]; [|discriminate].
+        destruct (o_held x); [|discriminate]. inversion Es; subst s' out. clear Es.
+        subst outs. eapply IH; [|exact Er]. repeat split; simpl; auto using set_released_ok.
+      + (* ECollect *)
+        destruct (find_obj o (heap s)) as [x|]; [|discriminate].
+        destruct (o_held x || (true && pins R o (cache s))); [discriminate|].
+        inversion Es; subst s' out. clear Es.
+        subst outs. eapply IH; [|exact Er]. repeat split; simpl; auto.
+        unfold remove_obj. apply Forall_filter; auto.
+  Qed.
+
+  Lemma init_Inv : Inv [] (init R).
+  Proof. repeat split; simpl; auto. Qed.
+
+  Theorem cache_transparent tr outs fin :
+    runP (init R) tr = (true, outs, fin) -> map snd outs = spec execute [] tr.
+  Proof. intro H. eapply run_ok; eauto using init_Inv. Qed.
+
+  (** The same from any state satisfying the invariant — in particular from a cache whose KEYS are
+      meaningless in this process (a pickled copy shipped to a worker process): the identity check,
+      not the key, is what makes a hit sound. *)
+  Theorem cache_transparent_from cs s tr outs fin :
+    Inv cs s -> runP s tr = (true, outs, fin) -> map snd outs = spec execute cs tr.
+  Proof. intros; eapply run_ok; eauto. Qed.
+End Transparent.
+
+(** With the cache switched off the machine computes the specification as well, so "cache on" and
+    "cache off" agree on every trace that is legal for both. *)
+Corollary cache_on_equals_off R execute cmax tr outs1 fin1 outs2 fin2 :
+  run R execute true true cmax (init R) tr = (true, outs1, fin1) ->
+  run R execute true false cmax (init R) tr = (true, outs2, fin2) ->
+  map snd outs1 = map snd outs2.
+Proof.
+  intros H1 H2. rewrite (cache_transparent _ _ _ _ _ _ _ H1), (cache_transparent _ _ _ _ _ _ _ H2). reflexivity.
+Qed.
+
+(* ------------------------------------------------------------------ non-vacuity of cache_transparent *)
+
+(** A legal trace with cache size 1 in which the allocator reuses the address of a collected
+    substrate after its entry was evicted, with one genuine hit (same objects) and evictions. *)
+Definition nv_exec (s r : N) (inv : bool) : list N := [s; r; if inv then 1 else 0].
+Definition nv_trace : list event :=
+  [EAlloc 7 100; EAlloc 8 200; EApply 0 1 false; EApply 0 1 false; EAlloc 9 101; EApply 2 1 false;
+   ERelease 0; ECollect 0; EAlloc 7 102; EApply 3 1 false; EApply 3 1 true; EApply 2 1 false].
+
+Example cache_transparent_nonvacuous :
+  let '(ok, outs, fin) := run (list N) nv_exec true true 1 (init _) nv_trace in
+  ok = true /\ map fst outs = [false; true; false; false; false; false]
+  /\ map snd outs = spec nv_exec [] nv_trace
+  /\ map snd outs = [[100; 200; 0]; [100; 200; 0]; [101; 200; 0]; [102; 200; 0]; [102; 200; 1]; [101; 200; 0]]
+  /\ length (cache fin) = 1%nat.
+Proof. vm_compute. repeat split; reflexivity. Qed.
+
+(** While the entry pins the substrate the collector may not free it (so its address cannot be reused). *)
+Example pinned_object_not_collectable :
+  fst (fst (run (list N) nv_exec true true 8 (init _)
+              [EAlloc 7 100; EAlloc 8 200; EApply 0 1 false; ERelease 0; ECollect 0])) = false.
+Proof. vm_compute. reflexivity. Qed.
+
+(* ------------------------------------------------------------------ the unpinned discipline *)
 
 (** The unpinned key discipline (the code before the repair) is not transparent: a two-entry
     history in which the allocator hands the first substrate's address to the second. *)
@@ -11,12 +219,13 @@ Definition refute_trace : list event :=
   [EAlloc 1 10; EAlloc 2 20; EApply 0 1 false; ERelease 0; ECollect 0; EAlloc 1 11; EApply 2 1 false].
 
 Lemma cache_transparent_unpinned_refuted :
-  exists (execute : N -> N -> bool -> list N) (tr : list event) (cmax : nat),
+  exists (execute : N -> N -> bool -> list N) (tr : list event) (cmax : nat) outs fin,
     (1 <= cmax)%nat /\
-    let '(ok, outs, _) := run (list N) execute false true cmax (init _) tr in
-    ok = true /\ client_view tr = [CAlloc 10; CAlloc 20; CApply 0 1 false; CRelease 0; CAlloc 11; CApply 2 1 false] /\
-    nth 1 outs (false, []) = (true, execute 10 20 false) /\ execute 10 20 false <> execute 11 20 false.
+    run (list N) execute false true cmax (init _) tr = (true, outs, fin) /\
+    client_view tr = [CAlloc 10; CAlloc 20; CApply 0 1 false; CRelease 0; CAlloc 11; CApply 2 1 false] /\
+    map snd outs <> spec execute [] tr.
 Proof.
-  exists refute_exec, refute_trace, 8%nat. split; [lia|].
-  vm_compute. repeat split; congruence.
+  exists refute_exec, refute_trace, 8%nat. eexists. eexists. split; [lia|].
+  split; [vm_compute; reflexivity|]. split; [reflexivity|].
+  vm_compute. congruence.
 Qed.
